@@ -81,7 +81,14 @@ def r_registry(run, tree):
     check_registry(run, tree)
 
 
-RULES = [r_registry, r7_conversion, r1_protocols, r2_catalogue, r3_no_inherit_without_reconcile, r4_dtype_gate, r5_out, r6_helpers, r8_end_to_end, r_conversion_history]
+def r_masked(run, tree):
+    from . import array_folds as af
+    run.rule("C10.R11", "an Array holding a numpy masked array keeps the mask through construction, copy(), to(), indexing, .values and the numpy dispatch "
+             "(numpy.asarray / numpy.array on the way hand the hidden entries back as ordinary values)", "D7 fold of the Array class over a masked buffer token", "", floor=6)
+    af.check_masked_buffers(run, tree)
+
+
+RULES = [r_masked, r_registry, r7_conversion, r1_protocols, r2_catalogue, r3_no_inherit_without_reconcile, r4_dtype_gate, r5_out, r6_helpers, r8_end_to_end, r_conversion_history]
 
 
 def t_numpy_space(run, tree):
